@@ -121,7 +121,7 @@ theorem gnuLoop_total (t : SymTab) (ht : TabOk t) {h : SecBuf} (hs : Sec h) {d :
 
 /-- **`gnu_hash_lookup` is total** on ARBITRARY hash section contents (section smaller than 4 GiB:
     the 32-bit chain index then cannot wrap) -/
-theorem gnuLookup_total (t : SymTab) (ht : TabOk t) (h : SecBuf) (hs : Sec h) (hsmall : h.size.toNat < 4294967296)
+theorem gnuLookup_total (t : SymTab) (ht : TabOk t) (h : SecBuf) (hs : Sec h) (hsmall0 : Small h)
     (name : Bytes) (a : Attrs) : ∃ r, TQ.gnuLookup t h name a = .ok r := by
   unfold TQ.gnuLookup
   simp only [hs.secData]
@@ -134,6 +134,7 @@ theorem gnuLookup_total (t : SymTab) (ht : TabOk t) (h : SecBuf) (hs : Sec h) (h
   cases hd : h.data with
   | none => simp [tq_gnu32_hdr_bad, hd] at hb
   | some d =>
+    have hsmall := hsmall0 d hd
     have hsz : 16 ≤ h.size.toNat := by
       simp only [tq_gnu32_hdr_bad, hd, Option.isNone_some, Bool.false_or, se4x4, BitVec.ult, decide_eq_true_eq,
         BitVec.toNat_ofNat, Nat.reducePow, Nat.reduceMod] at hb
